@@ -2,6 +2,10 @@
    by harness/h_modring.cpp (`<ring>.<op> <m> <arg>… = <result>`). -/
 import Driver.Common
 import GivaroModel.Model.ModRing
+import GivaroModel.Model.ModRingHist
+import GivaroModel.Model.ModRingRecInt
+import GivaroModel.Model.ModRingExt
+import GivaroModel.Model.ModRingLog16
 import GivaroModel.Spec.ModRingSpec
 -- @driver-mode modring Driver.ModRing.modringLine
 -- @driver-mode modinit Driver.ModRing.modinitLine
@@ -10,8 +14,8 @@ open Driver
 open Givaro.Model.ModRing Givaro.Spec.ModRing
 
 inductive Fam where
-  | int (k : ICfg) | flt (k : FCfg) | balF (k : BFCfg) | balI (k : BICfg) | ext (mant : Nat)
-  | zz | ru (k : RCfg) | rint (n : Nat) | log16 | mont | gfq
+  | int (k : ICfg) | flt (k : FCfg) | balF (k : BFCfg) | balI (k : BICfg) | ext (k : ECfg)
+  | zz | ru (k : RCfg) | log16 | mont | gfq
 
 def famOf : String → Option Fam
   | "s8" => some (.int ⟨8, true, 8⟩) | "s16" => some (.int ⟨16, true, 16⟩)
@@ -25,10 +29,10 @@ def famOf : String → Option Fam
   | "f32" => some (.flt ⟨24, 24⟩) | "f64" => some (.flt ⟨53, 53⟩) | "f32f64" => some (.flt ⟨24, 53⟩)
   | "bf32" => some (.balF ⟨24⟩) | "bf64" => some (.balF ⟨53⟩)
   | "bs32" => some (.balI ⟨32⟩) | "bs64" => some (.balI ⟨64⟩)
-  | "xf32" => some (.ext 24) | "xf64" => some (.ext 53)
+  | "xf32" => some (.ext ⟨24⟩) | "xf64" => some (.ext ⟨53⟩)
   | "Z" => some .zz
-  | "ru6" => some (.ru ⟨64, false⟩) | "ru7" => some (.ru ⟨128, false⟩) | "ru7ru8" => some (.ru ⟨128, true⟩)
-  | "ri7" => some (.rint 128)
+  | "ru6" => some (.ru ⟨64, false, false⟩) | "ru7" => some (.ru ⟨128, false, false⟩) | "ru7ru8" => some (.ru ⟨128, false, true⟩)
+  | "ri7" => some (.ru ⟨128, true, false⟩)
   | "log16" => some .log16
   | "mg32" => some .mont | "gfq32" => some .gfq
   | _ => none
@@ -43,10 +47,9 @@ def Fam.limits : Fam → Int × Option Int
   | .flt k => (k.minCard, some k.maxCard)
   | .balF k => (k.minCard, some k.maxCard)
   | .balI k => (k.minCard, some k.maxCard)
-  | .ext mant => (2, some ((2 : Int) ^ (mant - 3) - 1))      -- 2^(52-2)-1 ; 2^(23-2)-1
+  | .ext k => (2, some k.maxCard)
   | .zz => (2, none)
   | .ru k => (2, some k.maxCard)
-  | .rint n => (2, some (3037000499 * (2 : Int) ^ (n / 2 - 32)))   -- ruint<K>::maxFFLAS: 2^(2^(K-1)-32) * 3037000499
   | .log16 => (2, some 16381)
   | .mont => (2, some 40503)
   | .gfq => (2, some 65536)
@@ -132,6 +135,23 @@ def modelEval (f : Fam) (op : String) (p : Int) (a : Array Int) : MRes :=
     | "maxpyin" => .val (k.maxpy p (g 1) (g 2) (g 0))
     | "reduce1" | "reduce2" => .val (k.reduce p (g 0))
     | _ => .noModel
+  | .ext k =>
+    match op with
+    | "add" | "addin" => ofOpt (k.add p (g 0) (g 1))
+    | "sub" | "subin" => ofOpt (k.sub p (g 0) (g 1))
+    | "mul" | "mulin" => ofOpt (k.mul p (g 0) (g 1))
+    | "neg" | "negin" => ofOpt (k.neg p (g 0))
+    | "inv" | "invin" => ofOpt (k.inv p (g 0))
+    | "div" => ofOpt (k.div p (g 0) (g 1))
+    | "divin" => ofOpt (k.divin p (g 0) (g 1))
+    | "axpy" => ofOpt (k.axpy p (g 0) (g 1) (g 2))
+    | "axmy" => ofOpt (k.axmy p (g 0) (g 1) (g 2))
+    | "maxpy" => ofOpt (k.maxpy p (g 0) (g 1) (g 2))
+    | "axpyin" => ofOpt (k.axpy p (g 1) (g 2) (g 0))
+    | "axmyin" => ofOpt (k.axmy p (g 1) (g 2) (g 0))
+    | "maxpyin" => ofOpt (k.maxpy p (g 1) (g 2) (g 0))
+    | "isUnit" => ofOpt ((k.isUnit p (g 0)).map b2i)
+    | _ => .noModel
   | .zz =>
     match op with
     | "add" | "addin" => .val (ZMod'.add p (g 0) (g 1))
@@ -149,20 +169,123 @@ def modelEval (f : Fam) (op : String) (p : Int) (a : Array Int) : MRes :=
   | .ru k =>
     match op with
     | "add" | "addin" => .val (k.add p (g 0) (g 1))
-    | "sub" | "subin" => .val (k.sub p (g 0) (g 1))
+    | "sub" => .val (k.sub p (g 0) (g 1))
+    | "subin" => .val (k.subin p (g 0) (g 1))
     | "mul" | "mulin" => .val (k.mul p (g 0) (g 1))
     | "neg" | "negin" => .val (k.neg p (g 0))
+    | "inv" | "invin" => .val (k.inv p (g 0))
+    | "div" => .val (k.div p (g 0) (g 1))
+    | "divin" => .val (k.divin p (g 0) (g 1))
     | "axpy" => .val (k.axpy p (g 0) (g 1) (g 2))
     | "axmy" => .val (k.axmy p (g 0) (g 1) (g 2))
     | "maxpy" => .val (k.maxpy p (g 0) (g 1) (g 2))
-    | "axpyin" => .val (k.axpy p (g 1) (g 2) (g 0))
+    | "axpyin" => .val (k.axpyin p (g 0) (g 1) (g 2))
     | "axmyin" => .val (k.axmy p (g 1) (g 2) (g 0))
     | "maxpyin" => .val (k.maxpyin p (g 0) (g 1) (g 2))
+    | "isUnit" => .val (b2i (k.isUnit p (g 0)))
+    | "reduce1" | "reduce2" => .val (k.reduce p (g 0))
     | _ => .noModel
   | _ => .noModel
 
+/-- decode one instruction code of a history line: op*256 + d*64 + a*16 + b*4 + c -/
+def decodeInstr (code : Int) : Option Instr :=
+  let c := code.toNat
+  let d := (c / 64) % 4
+  let s1 := (c / 16) % 4
+  let s2 := (c / 4) % 4
+  let s3 := c % 4
+  match c / 256 with
+  | 0 => some (.add d s1 s2) | 1 => some (.sub d s1 s2) | 2 => some (.mul d s1 s2) | 3 => some (.neg d s1)
+  | 4 => some (.axpy d s1 s2 s3) | 5 => some (.axmy d s1 s2 s3) | 6 => some (.maxpy d s1 s2 s3)
+  | 7 => some (.addin d s1) | 8 => some (.subin d s1) | 9 => some (.mulin d s1) | 10 => some (.negin d)
+  | 11 => some (.axpyin d s1 s2) | 12 => some (.axmyin d s1 s2) | 13 => some (.maxpyin d s1 s2)
+  | _ => none
+
+/-- the operation table of a family (`none`: no model of the ring's code, specification only) -/
+def Fam.ops? (f : Fam) (p : Int) : Option RingOps :=
+  match f with
+  | .int k => some (k.ops p)
+  | .flt k => some (k.ops p)
+  | .balF k => some (k.ops p)
+  | .balI k => some (k.ops p)
+  | .zz => some (zOps p)
+  | .ru k => some (k.ops p)
+  | .ext k => some (k.ops p)
+  | _ => none
+
+/-- verdict for a history line: registers after the program, model run and residue run -/
+def histVerdict (f : Fam) (m : Int) (a : Array Int) (res : List String) (line : String) : String :=
+  let bal := f.balanced
+  let regs0 : Regs := ⟨a.getD 0 0, a.getD 1 0, a.getD 2 0, a.getD 3 0⟩
+  if !((List.range 4).all (fun i => decide (isCanon bal m (regs0 i)))) then "PRE" else
+  match ((a.toList.drop 4).mapM decodeInstr) with
+  | none => "BAD code | " ++ line
+  | some prog =>
+    let wz := runZ (canon bal m) prog regs0
+    let want := [wz.r0, wz.r1, wz.r2, wz.r3]
+    let model : Option (Option (List Int)) := (f.ops? m).map (fun O => (O.run prog regs0).map (fun r => [r.r0, r.r1, r.r2, r.r3]))
+    let showL (l : List Int) := String.intercalate "," (l.map hexInt)
+    let showM := match model with
+      | none => "-" | some none => "INEXACT" | some (some l) => showL l
+    if res.contains "NAI" then s!"DIFF kind=SPEC model={showM} | {line.trimAscii.toString}" else
+    match parseAll res with
+    | none => "BAD result | " ++ line
+    | some impl =>
+      let specOk := impl == want
+      let modelOk := match model with
+        | none => true
+        | some r => r == some impl
+      if specOk && modelOk then "OK" else
+      let kind := if !specOk && !modelOk then "BOTH" else if !specOk then "SPEC" else "MODEL"
+      s!"DIFF kind={kind} model={showM} | {line.trimAscii.toString}"
+
 def isPrimeNat (n : Nat) : Bool :=
   n ≥ 2 && (List.range (Nat.sqrt n + 1)).all (fun d => d < 2 || n % d != 0)
+
+/-- verdict for a representation-level line of the log-table ring:
+    `log16.raw_<op> p a b c = g ra rb rc rr` (operands as residues; generator, raw operands, raw result) -/
+def rawVerdict (op : String) (m : Int) (a : Array Int) (res : List String) (line : String) : String :=
+  if res == ["NONUNIT"] then "PRE" else
+  if !isPrimeNat m.toNat then "PRE" else
+  match parseAll res with
+  | some [g, ra, rb, rc, rr] =>
+    let T := L16.ofGen m g
+    let n := a.size
+    let raws := #[ra, rb, rc]
+    -- init: the raw operands are the table's representations of the residues
+    let repOk := (List.range n).all (fun i => T.rep (a.getD i 0) == raws.getD i 0 && T.val (raws.getD i 0) == a.getD i 0)
+    let o := (op.drop 4).toString
+    let model : Option Int := match o, n with
+      | "add", 2 | "addin", 2 => some (T.add ra rb)
+      | "sub", 2 | "subin", 2 => some (T.sub ra rb)
+      | "mul", 2 | "mulin", 2 => some (T.mul ra rb)
+      | "div", 2 => some (T.div ra rb)
+      | "inv", 1 => some (T.inv ra)
+      | "neg", 1 | "negin", 1 => some (T.neg ra)
+      | "axpy", 3 => some (T.axpy ra rb rc)
+      | "axmy", 3 => some (T.axmy ra rb rc)
+      | "maxpy", 3 => some (T.maxpy ra rb rc)
+      | "axpyin", 3 => some (T.axpyin ra rb rc)
+      | "axmyin", 3 => some (T.axmyin ra rb rc)
+      | "maxpyin", 3 => some (T.maxpyin ra rb rc)
+      | _, _ => none
+    match model with
+    | none => "BAD op | " ++ line
+    | some mr =>
+      let canonRep := (0 ≤ rr && rr < m - 1) || rr == 2 * (m - 1)
+      let g0 := a.getD 0 0
+      let g1 := a.getD 1 0
+      let specOk : Bool := canonRep && (match o with
+        | "div" => isQuot false m g0 g1 (T.val rr)
+        | "inv" => isQuot false m 1 g0 (T.val rr)
+        | _ => match exactZ o a with
+          | some z => T.val rr == canonU m z
+          | none => false)
+      let modelOk := repOk && mr == rr
+      if specOk && modelOk then "OK" else
+      let kind := if !specOk && !modelOk then "BOTH" else if !specOk then "SPEC" else "MODEL"
+      s!"DIFF kind={kind} model={hexInt mr} repOk={repOk} | {line.trimAscii.toString}"
+  | _ => "BAD result | " ++ line
 
 /-- verdict for one C03 line -/
 def c03Verdict (f : Fam) (op : String) (m : Int) (a : Array Int) (res : List String) (line : String) : String :=
@@ -178,6 +301,8 @@ def c03Verdict (f : Fam) (op : String) (m : Int) (a : Array Int) (res : List Str
      else s!"DIFF kind=MODEL model={hexInt lo},{hexInt (want.getD 1 0)} | {line.trimAscii.toString}") else
   if m < 2 then "PRE" else
   if (match f with | .log16 => !isPrimeNat m.toNat | _ => false) then "PRE" else
+  if op.startsWith "raw_" then rawVerdict op m a res line else
+  if op == "hist" then histVerdict f m a res line else
   let isRed := op == "reduce1" || op == "reduce2"
   if !isRed && !(a.all (fun x => decide (isCanon bal m x))) then "PRE" else
   if res == ["NONUNIT"] then "PRE" else
@@ -248,6 +373,7 @@ def initModel (f : Fam) (src : String) (p x : Int) : MRes :=
   | .int k => if srcIsInt src then .val (k.initInt (srcBits src) (srcSigned src) p x) else .noModel
   | .balI k => if src == "s64" || src == "u64" then
       (if k.w = 32 then .val (k.initWide (srcSigned src) p x) else .noModel) else .noModel
+  | .ru k => if src == "Z" then .val (k.initZ p x) else if srcIsInt src then .val (k.initInt p x) else .noModel
   | _ => .noModel
 
 def c04Verdict (f : Fam) (op : String) (m : Int) (a : Array Int) (res : List String) (line : String) : String :=
